@@ -199,8 +199,15 @@ if (index < 0) {
   return list.data[index];
 }
 
+// The element type is taken from the list alone, so that a value of a convertible
+// type ("text" for a String list, 3.5 or an int for a float list) is accepted.
 template <typename T>
-void __redu_list_append(__redu_list<T> &list, const T &value) {
+struct __redu_identity {
+  typedef T type;
+};
+
+template <typename T>
+void __redu_list_append(__redu_list<T> &list, const typename __redu_identity<T>::type &value) {
   T *next = new T[list.size + 1];
   for (size_t i = 0; i < list.size; ++i) {
     next[i] = list.data[i];
@@ -212,7 +219,7 @@ void __redu_list_append(__redu_list<T> &list, const T &value) {
 }
 
 template <typename T>
-void __redu_list_remove(__redu_list<T> &list, const T &value) {
+void __redu_list_remove(__redu_list<T> &list, const typename __redu_identity<T>::type &value) {
   if (list.size == 0) {
     return;
   }
